@@ -18,6 +18,9 @@ def all_units():
         units += control_units.UNITS
     except ImportError:
         pass
+    from . import control_units2
+
+    units += control_units2.UNITS
     # a unit also carries invariant/guarantee obligations of other properties (every segment must preserve every
     # clause): the measured property set of each unit is recorded with the baseline
     import json
